@@ -2,7 +2,7 @@
 import json, os
 from .context import Ctx
 from .report import Report
-from . import rules_effects, rules_own, rules_wipe, rules_tables, rules_bits, rules_api, rules_char
+from . import rules_effects, rules_own, rules_wipe, rules_tables, rules_bits, rules_api, rules_char, rules_cmp
 
 TB_COMMON = ['clang-14 parsing and -O0 lowering of C11 (+ opt-14 mem2reg)', 'LLVM x86-64 data layout',
              'tools/irfacts.cc (IR -> JSON, no analysis)', 'psa/ir.py CFG, dominators, inclusion-based points-to']
@@ -173,6 +173,20 @@ def c17(ctx, rep):
             'separators, compared with the compiled sizeof(polyseed_str); exit summary of encode ties the sum to the 16+15 writer calls')
 
 
+def c08(ctx, rep):
+    rules_cmp.dispatch(ctx, rep)
+    rules_cmp.nfkd_before_split(ctx, rep)
+    rules_cmp.skip_normalised(ctx, rep)
+    rules_cmp.counter_pairing(ctx, rep)
+    rules_cmp.cursor_safety(ctx, rep)
+    rules_tables.search_preconditions(ctx, rep)
+    rules_tables.registry_and_frozen(ctx, rep)
+    rep.assumptions += ['NOT decided: that each comparator body returns 0 exactly for "equal, or key is a >= 4-character prefix" on all strings '
+                        '(unbounded string loops with data-dependent exits); only the structural necessary conditions named by the rules are decided']
+    return ('structural rules on the comparators\' CFG/SSA: dispatch by language flags, NFKD before tokenising, skip-normalised reads '
+            '(contradiction rule), prefix-counter pairing and threshold, cursor discipline; table preconditions of unambiguity')
+
+
 def c19(ctx, rep):
     rules_char.char_sites(ctx, rep)
     rules_char.byte_order_tables(ctx, rep)
@@ -182,6 +196,7 @@ def c19(ctx, rep):
 
 REGISTRY = {
     'C05': dict(fn=c05, level='proof', tb=TB_COMMON + ['psa/bitflow.py', 'psa/harness.py summaries']),
+    'C08': dict(fn=c08, level='other', tb=TB_COMMON + ['psa/rules_cmp.py idiom classifiers (non-ASCII test, NUL test, byte equality)']),
     'C09': dict(fn=c09, level='other', tb=TB_COMMON + ['psa/bitflow.py', 'psa/harness.py summaries']),
     'C10': dict(fn=c10, level='proof', tb=TB_COMMON + ['psa/bitflow.py']),
     'C12': dict(fn=c12, level='proof', tb=TB_COMMON + ['psa/bitflow.py', 'summaries of injected functions in psa/harness.py']),
